@@ -299,8 +299,20 @@ fn contract_case(t0: &mut Tape, w: &Worker) -> CaseResult {
             }
         }
     }
+    // a sixth of the inputs belong to another detector (a known system id other than ITS on every packet); they are
+    // checked without a target system (RDH level only): accounting and display rules are the same
+    let other_detector = class != 2 && ot.chance(1, 6);
+    if other_detector {
+        let sys = *ot.pick(&[0x03u8, 0x04, 0x05, 0x06, 0x21, 0x22, 0x27]);
+        for l in cs.stream.links.iter_mut() {
+            for p in l.packets.iter_mut() {
+                p.rdh.system_id = sys;
+            }
+        }
+        out.labels.push("input:other_detector".into());
+    }
     let (bytes, _lay) = cs.stream.encode();
-    let mode = *ot.pick(&ALL_MODES);
+    let mode = if other_detector { *ot.pick(&[Mode::Sanity, Mode::All]) } else { *ot.pick(&ALL_MODES) };
     let stdin = ot.chance(1, 2);
     let with_e = ot.chance(3, 4);
     let e_code = 1 + ot.below(255);
@@ -532,7 +544,7 @@ pub fn build() -> Property {
         id: "C16",
         rule: "(1) 18 invalid option combinations (check sanity its-stave, trigger period in five wrong places, -E 0, stats file missing / without / with wrong extension / with json or toml in another letter case (rejected up front or read as that format, never a crash), -o without filter, -S without -D, two filters): \
                non-zero exit, empty stdout, no file created. (2) unreadable / unrecognisable inputs (missing path, empty, < 8 bytes, first RDH0 failing the documented pre-check; file and stdin; all modes): non-zero exit, no crash. \
-               (3) generated inputs {clean G_conf, G_mut errors, mid-stream framing error with / without ordinary errors} x five modes x -E n (n in 1..255) x custom checks (right / wrong packet count): exit = n iff anything was reported \
+               (3) generated inputs {clean G_conf, G_mut errors, mid-stream framing error with / without ordinary errors; a sixth with the system id of another detector on every packet, checked without target} x five modes x -E n (n in 1..255) x custom checks (right / wrong packet count): exit = n iff anything was reported \
                (error, fatal input error, custom-check failure) and -E given, else 0; total_errors = listed + custom = number of red messages shown (+1 accepted when the fatal message is repeated); -m shows none and changes nothing; on otherwise silent inputs a statistics file (-i) that differs from the run in one value (error total, RDH count, one listed message) gives exit n with and without -m; \
                -w L shows exactly the messages whose code is in L (L includes codes that are prefixes / extensions of present codes); -e N shows <= N. Non-trivial = >= 2 distinct codes present or a fatal/invalid class.",
         assumptions: vec![
